@@ -98,7 +98,7 @@ def _tlc_cmd(module, cfg, metadir, workers=1, heap="2g", extra=(), props=()):
     gc = ["-XX:+UseSerialGC"] if workers == 1 else ["-XX:+UseParallelGC", "-XX:ParallelGCThreads=4"]
     cmd = ["java"] + gc + ["-Xss16m", "-Xmx" + heap]
     cmd += ["-D" + p for p in props]
-    cmd += ["-cp", TLA_CP, "tlc2.TLC", "-workers", str(workers), "-metadir", metadir, "-config", cfg]
+    cmd += ["-cp", TLA_CP, "tlc2.TLC", "-workers", str(workers), "-metadir", metadir, "-noGenerateSpecTE", "-config", cfg]
     cmd += list(extra) + [module]
     return cmd
 
